@@ -164,6 +164,29 @@ def run(ctx, chk):
                        detail={"caller": caller, "classes": sorted(cl)}, key="E1c|%s|%s" % (_fn(caller), _fn(cid)),
                        msg="a reader source must be constructed with the stored (logical) or physical length, never "
                            "with stored + pushed")
+    # E1d the constructors clamp: every range field of the source they build depends on the length parameter
+    for cid in ctors:
+        cb = P.bodies[cid]
+        lenp = [l for l in range(1, cb.arg_count + 1) if cb.name_of.get(l) in ("stored_len", "len")]
+        agg = None
+        for b in cb.reachable():
+            for st in cb.blocks[b]["stmts"]:
+                if st[0] == "assign" and st[2]["k"] == "agg" and st[2].get("adt") and cid.startswith(
+                        st[2]["adt"].split("<")[0]) and "sources::" in st[2]["adt"]:
+                    agg = st[2]
+        if agg is None:
+            raise AnchorMissing("%s: construction of the source struct not found" % cid)
+        adt = P.adts[agg["adt"]]
+        fields = [f["name"] for f in adt["variants"][0]["fields"]]
+        for fname in ("end", "pos", "end_offset", "file_offset", "stored_len", "end_page", "to"):
+            if fname not in fields:
+                continue
+            o = agg["ops"][fields.index(fname)]
+            dep = op_place(o) is not None and lenp[0] in O.slice_back(cb, o)["params"]
+            chk.oblige("E1d %s: field `%s` is clamped by the length parameter" % (_fn(cid), fname), dep,
+                       key="E1d|%s|%s" % (_fn(cid), fname),
+                       msg="a source's range must be clamped to the stored length it was given, or its loops read past "
+                           "the valid data")
     # ---------------- E2 publications
     pubs = 0
     for bid, body in sorted(P.bodies.items()):
